@@ -20,7 +20,7 @@ import (
 func init() {
 	register(&Check{
 		ID: "C20", Level: "exploration", QuickSecs: 170, ThoroughSecs: 1200,
-		Rule:        "(a) all texts printed from reference ASTs over the bootstrap subset (char/string/raw literals with i, a raw string with carriage returns, classes, any, rule references, & ! ? * +, labels, actions, nested sequences/choices, display names) up to N nodes (quick 4, thorough 5) in the canonical spelling and with every single spelling deviation of {4 definition operators, ';' separators, literal quotings, escapes, full parentheses, code block bodies with nested braces/strings/comments}: the hand-written bootstrap front-end (bootstrap.Parser, linked as a library) must accept every text (except the spellings it is known not to cover: comments between rules, braces inside string/rune literals of code blocks - skipped and counted), the generated front-end (hook ast mode) must accept it too and both must build a structurally identical AST (positions and display-name quoting aside). (b) the whole working tree is copied to a scratch directory and 'make -B all' re-runs the three bootstrap stages and regenerates every checked-in artifact with the Makefile's flags; every regenerated file must be byte-identical to the tree (complete, finite; plain regeneration, not exploration). Non-trivial = texts accepted by the bootstrap front-end with >= 3 nodes, plus one per regenerated artifact.",
+		Rule:        "(a) all texts printed from reference ASTs over the bootstrap subset (char/string/raw literals with i, a raw string with carriage returns, classes, any, rule references, & ! ? * +, labels, actions, nested sequences/choices, display names) up to N nodes (quick 4, thorough 5) in the canonical spelling and with every single spelling deviation of {4 definition operators, ';' separators, literal quotings, escapes, full parentheses, code block bodies with nested braces/strings/comments}: the hand-written bootstrap front-end (bootstrap.Parser, linked as a library) must accept every text (except the spellings it is known not to cover: comments between rules, braces inside string/rune literals of code blocks - skipped and counted), the generated front-end (hook ast mode) must accept it too and both must build a structurally identical AST (positions and display-name quoting aside). (b) the whole working tree is copied to a scratch directory and 'make -B all' re-runs the three bootstrap stages and regenerates every checked-in artifact with the Makefile's flags; every regenerated file must be byte-identical to the tree (complete, finite; plain regeneration, not exploration). Non-trivial = texts accepted by the bootstrap front-end with >= 3 nodes, plus one per regenerated artifact. Plus a rune family (13 runes at the edges of the UTF-8 encoding lengths, the surrogate gap and the code space, raw and in every escape form, in literals, classes and range bounds; finding D34) and blanks between an operator and its operand.",
 		Assumptions: []string{"the bootstrap subset is what grammar/bootstrap.peg describes; the families only use its constructs; comments between rules and braces inside literals of code blocks are not covered by the hand-written scanner and are skipped (counted)", "GNU make and the Makefile's own recipes perform the regeneration"},
 		Explanation: "part (b) is an exhaustive regeneration of the finite artifact set, not a state-space search",
 		Run:         runC20,
